@@ -1,3 +1,10 @@
 import GoImap.Props.C06
+#print axioms GoImap.C06.total_and_closed
+#print axioms GoImap.C06.buffered_literal_cap
+#print axioms GoImap.C06.append_cap
+#print axioms GoImap.C06.append_refused_unread
+#print axioms GoImap.C06.depth_bounded
+#print axioms GoImap.C06.legacy_depth_unbounded
+#print axioms GoImap.C06.legacy_depth_run_example
 #print axioms GoImap.C06.literal_buffers_at_most_4096
 #print axioms GoImap.C06.raw_line_within_input
